@@ -22,11 +22,12 @@ func init() { reg.Register(&reg.Prop{ID: "C17", Run: Run, Replay: Replay}) }
 // In is the replayable input: a model, how its rendering is damaged, and how it is parsed.
 type In struct {
 	Doc      Doc    `json:"doc"`
-	API      string `json:"api"`              // Parse | ParseOne (a loop of ParseOne on one bufio.Reader until io.EOF)
-	Delivery string `json:"delivery"`         // whole | onebyte (the io.Reader yields one byte per Read) | smallbuf (16-byte bufio.Reader)
-	Damage   string `json:"damage,omitempty"` // "" | no-final-newline | prefix | delete | subst
-	Pos      int    `json:"pos,omitempty"`    // prefix: length kept; delete: offset of the deleted byte; subst: offset of the occurrence
-	Rule     string `json:"rule,omitempty"`   // subst: name of the substitution
+	API      string `json:"api"`                   // Parse | ParseOne (a loop of ParseOne on one bufio.Reader until io.EOF)
+	Delivery string `json:"delivery"`              // whole | onebyte (the io.Reader yields one byte per Read) | smallbuf (16-byte bufio.Reader)
+	Damage   string `json:"damage,omitempty"`      // "" | no-final-newline | prefix | delete | subst
+	Pos      int    `json:"pos,omitempty"`         // prefix: length kept; delete: offset of the deleted byte; subst: offset of the occurrence
+	Rule     string `json:"rule,omitempty"`        // subst: name of the substitution
+	Entry    string `json:"entry_point,omitempty"` // "" = reader (Parse / ParseOne loop) | file-abs | file-bare | file-dot | file-dotdot | file-missing: ParseFile / ParseFileOne
 }
 
 // A substitution replaces Old at one occurrence by New. Date rules are resolved against the entry's date tokens.
@@ -187,6 +188,10 @@ func parse(in In, text string) (entries []changelog.ChangelogEntry, err error, p
 		r = iotest.OneByteReader(r)
 	}
 	p, msg := mc.Guard(func() {
+		if isFileEntry(in.Entry) {
+			entries, err = viaFile(in, text)
+			return
+		}
 		switch in.API {
 		case "Parse":
 			var es changelog.ChangelogEntries
@@ -275,9 +280,23 @@ func check(scen string, in In) (*mc.Violation, string) {
 	if !ex.mustSucceed {
 		kind = "damaged"
 	}
+	if isFileEntry(in.Entry) {
+		ex.features = append(ex.features, "entry-"+in.Entry)
+		if in.API == "ParseOne" && ex.blocks > 1 { // ParseFileOne reads the first entry only
+			ex.blocks, ex.mustEqual = 1, ex.mustEqual[:1]
+		}
+	}
 	got, err, panicked := parse(in, ex.text)
 	if panicked != "" {
 		return vt(ex.text, scen, "no-panic", in, "entries or an error", "panic: "+panicked, ex.features...), kind + "/panic"
+	}
+	if isFileEntry(in.Entry) {
+		if v := checkFileAgainstReader(scen, in, ex.text, got, err, ex.features); v != nil {
+			return v, kind + "/differs-from-reader"
+		}
+		if in.Entry == "file-missing" {
+			return nil, "missing-file/error"
+		}
 	}
 	if err != nil {
 		if ex.mustSucceed {
@@ -580,6 +599,9 @@ func Run(r *mc.Run) {
 			})
 	}
 
+	// file entry points (ParseFile / ParseFileOne) as an explicit entry-point dimension
+	fileEntryScenario(r)
+
 	// (c) damage of fixed documents
 	docs := fixedDocs()
 	var sizes []int
@@ -646,6 +668,89 @@ func Run(r *mc.Run) {
 					for _, a := range apis {
 						st.Nontrivial++
 						record(st, "every-substitution", In{Doc: docs[di], API: a, Delivery: "whole", Damage: "subst", Pos: p, Rule: ru.Name}, di == 3 && a == "ParseOne" && (ru.Name == "date-zone-with-colon" || ru.Name == "semicolon-to-comma") && p == positions[len(positions)-1])
+					}
+				}
+			}
+			return true
+		})
+}
+
+// fileEntryScenario drives ParseFile / ParseFileOne (path absolute, bare from its directory, ./x, ../x from a
+// subdirectory, missing) over a representative slice of the model changelogs: well formed with 1..3 entries, final
+// newline absent, every truncation class of every entry, and the first and last occurrence of every substitution
+// (malformed header, trailer, date).
+func fileEntryScenario(r *mc.Run) {
+	type job struct {
+		doc    Doc
+		damage string
+		pos    int
+		rule   string
+	}
+	var jobs []job
+	docs := append(fixedDocs(), mkDoc([]Pick{{}}, 0, nil, 0), mkDoc([]Pick{{Body: 4, Maint: 2, Date: 4, Opts: 3}}, 1, nil, 1), mkDoc([]Pick{{Body: 11, Dists: 2, Version: 3}}, 0, nil, 2))
+	for _, d := range docs {
+		jobs = append(jobs, job{d, "", 0, ""}, job{d, "no-final-newline", 0, ""})
+		text, lay := d.Render()
+		seen := map[int]bool{}
+		add := func(p int) {
+			if p >= 0 && p <= len(text) && !seen[p] {
+				seen[p] = true
+				jobs = append(jobs, job{d, "prefix", p, ""})
+			}
+		}
+		add(0)
+		add(len(text))
+		for i := range d.Entries {
+			hdr := lay.Start[i] + len(d.Entries[i].header())
+			for _, p := range []int{lay.Start[i], lay.Start[i] + 1, lay.Start[i] + 9, hdr - 1, hdr, hdr + 4, lay.DateStart[i] - 8, lay.DateStart[i], lay.DateStart[i] + 11, lay.TrailerNL[i] - 1, lay.TrailerNL[i], lay.End[i], lay.End[i] + 1} {
+				add(p)
+			}
+		}
+		for _, ru := range substRules {
+			var positions []int
+			if ru.DateTok >= 0 {
+				for e := range d.Entries {
+					toks := d.Entries[e].Date.tokens()
+					off := lay.DateStart[e]
+					for i := 0; i < ru.DateTok; i++ {
+						off += len(toks[i]) + 1
+					}
+					positions = append(positions, off)
+				}
+			} else {
+				for p := 0; p+len(ru.Old) <= len(text); p++ {
+					if strings.HasPrefix(text[p:], ru.Old) && lay.Owner(p) >= 0 {
+						positions = append(positions, p)
+					}
+				}
+			}
+			if len(positions) > 0 {
+				jobs = append(jobs, job{d, "subst", positions[0], ru.Name})
+				if len(positions) > 1 {
+					jobs = append(jobs, job{d, "subst", positions[len(positions)-1], ru.Name})
+				}
+			}
+		}
+	}
+	r.Scenario("file-entry-points", map[string]interface{}{"entry_points": entryPoints, "functions": "ParseFile (API Parse), ParseFileOne (API ParseOne: first entry)",
+		"inputs": len(jobs), "slice": "9 changelogs (1..3 entries): intact, final newline absent, 13 truncation points per entry, first and last occurrence of each substitution",
+		"oracle": "the property's clauses, and the same outcome as Parse / ParseOne through a reader on the same bytes; missing file: error and no entries"}, len(jobs),
+		func(i int, st *mc.Stats) bool {
+			j := jobs[i]
+			for _, ep := range entryPoints {
+				for _, a := range apis {
+					in := In{Doc: j.doc, API: a, Delivery: "whole", Damage: j.damage, Pos: j.pos, Rule: j.rule, Entry: ep}
+					v, class := check("file-entry-points", in)
+					if class == "" {
+						continue
+					}
+					st.Evals++
+					st.Traces++
+					st.Nontrivial++
+					st.Class(ep + "/" + map[string]string{"Parse": "ParseFile", "ParseOne": "ParseFileOne"}[a] + "/" + class)
+					st.Violate(v)
+					if (i == 3 || i == len(jobs)/2) && ep == "file-dotdot" && a == "Parse" && st.WantSample() {
+						st.Sample(map[string]interface{}{"entry_point": ep, "api": "ParseFile", "damage": j.damage, "pos": j.pos, "rule": j.rule, "input_text": derive(in).text})
 					}
 				}
 			}
